@@ -13,41 +13,56 @@ def _h(a):
 
 
 class SolverSeam:
-    """Wraps QuantileRegressionSolver.fit.  Calls issued by ConformalElectionModel.fit_model are numbered
-    (first attempts only); at the planned positions the first attempt fails with the planned kind."""
+    """Wraps QuantileRegressionSolver.fit and its per-quantile solves (_fit / _fit_with_regularization).
+
+    fit() calls issued by ConformalElectionModel.fit_model are recorded; the per-quantile solves made inside their
+    *first attempts* are numbered, and at the planned positions that solve fails with the planned kind - where the
+    real failures happen (inside the solve of one quantile, possibly after earlier quantiles of the same fit() call
+    succeeded).  Solves inside a retry are never failed."""
 
     def __init__(self):
         from elexsolver.QuantileRegressionSolver import QuantileRegressionSolver
 
         self.cls = QuantileRegressionSolver
-        self.orig = QuantileRegressionSolver.fit
-        self.plan = {}
-        self.calls = []
-        self.position = 0
-        self._pending_retry = None
+        self.orig_fit = QuantileRegressionSolver.fit
+        self.orig_solves = {name: getattr(QuantileRegressionSolver, name) for name in ("_fit", "_fit_with_regularization")}
+        self.reset()
         seam = self
 
         def fit(solver, *args, **kwargs):
             caller = sys._getframe(1).f_code.co_name
             if caller != "fit_model":
-                return seam.orig(solver, *args, **kwargs)
+                return seam.orig_fit(solver, *args, **kwargs)
             rec = seam._record(solver, args, kwargs)
             if seam._pending_retry is not None and seam._pending_retry["solver"] == id(solver):
                 rec["retry_of"] = seam._pending_retry["position"]
                 seam._pending_retry = None
-                seam.calls.append(rec)
-                return seam.orig(solver, *args, **kwargs)
-            seam.position += 1
-            rec["position"] = seam.position
-            kind = seam.plan.get(seam.position)
-            rec["fault"] = kind
             seam.calls.append(rec)
-            if kind == "solver_error":
-                import cvxpy
+            seam._current.append(rec)
+            try:
+                return seam.orig_fit(solver, *args, **kwargs)
+            finally:
+                seam._current.pop()
 
-                seam._pending_retry = {"solver": id(solver), "position": seam.position}
-                raise cvxpy.error.SolverError("injected: solver failed")
-            if kind == "inaccurate":
+        def make_solve(name):
+            orig = seam.orig_solves[name]
+
+            def solve(solver, *args, **kwargs):
+                if not seam._current or "retry_of" in seam._current[-1]:
+                    return orig(solver, *args, **kwargs)
+                rec = seam._current[-1]
+                seam.position += 1
+                rec.setdefault("positions", []).append(seam.position)
+                kind = seam.plan.get(seam.position)
+                if kind is None:
+                    return orig(solver, *args, **kwargs)
+                rec["fault"] = kind
+                rec["position"] = seam.position
+                if kind == "solver_error":
+                    import cvxpy
+
+                    seam._pending_retry = {"solver": id(solver), "position": seam.position}
+                    raise cvxpy.error.SolverError("injected: solver failed")
                 seam._pending_retry = {"solver": id(solver), "position": seam.position}
                 # exactly what cvxpy does for an inaccurate solution: a UserWarning issued from its own module
                 warnings.warn_explicit(
@@ -58,22 +73,26 @@ class SolverSeam:
                     module="cvxpy.problems.problem",
                     registry={},
                 )
-                # not turned into an exception: the fit goes on as if nothing happened
+                # not turned into an exception: the solve goes on as if nothing happened
                 seam._pending_retry = None
                 rec["warning_not_raised"] = True
-            return seam.orig(solver, *args, **kwargs)
+                return orig(solver, *args, **kwargs)
 
-        self.wrapper = fit
+            return solve
+
+        self.fit_wrapper = fit
+        self.solve_wrappers = {name: make_solve(name) for name in self.orig_solves}
 
     def _record(self, solver, args, kwargs):
         names = ["x", "y", "taus", "weights", "lambda_", "fit_intercept", "regularize_intercept", "n_feat_ignore_reg", "normalize_weights"]
         bound = dict(zip(names, args))
         extra = [k for k in kwargs if k not in names]
         bound.update({k: v for k, v in kwargs.items() if k in names})
+        taus = bound.get("taus", "<default 0.5>")
         return {
             "x": _h(bound["x"]),
             "y": _h(bound["y"]),
-            "taus": bound.get("taus", "<default 0.5>"),
+            "taus": list(taus) if isinstance(taus, (list, tuple)) else taus,
             "weights": _h(bound["weights"]) if bound.get("weights") is not None else None,
             "weights_sum": float(sum(bound["weights"])) if bound.get("weights") is not None else None,
             "lambda_": bound.get("lambda_", 0.0),
@@ -84,16 +103,21 @@ class SolverSeam:
         }
 
     def install(self):
-        self.cls.fit = self.wrapper
+        self.cls.fit = self.fit_wrapper
+        for name, w in self.solve_wrappers.items():
+            setattr(self.cls, name, w)
 
     def uninstall(self):
-        self.cls.fit = self.orig
+        self.cls.fit = self.orig_fit
+        for name, o in self.orig_solves.items():
+            setattr(self.cls, name, o)
 
     def reset(self, plan=None):
         self.plan = dict(plan or {})
         self.calls = []
         self.position = 0
         self._pending_retry = None
+        self._current = []
 
 
 class RecordingS3Client:
